@@ -79,6 +79,51 @@ CLAIMED = {
                 text="25 configurations incl. nested ones x 31+ schemes x complete/incomplete datasets, selector and "
                      "ParCons in both solver environments.",
                 ref="6 C14"),
+    "C11": dict(technique="KwikSort as a TLA+ step machine model-checked over every pivot schedule (KwikSort.tla); real runs "
+                          "under EVERY schedule (controlled pivot chooser) validated step by step by TLC (Trace_Kwik)",
+                text="Design level: blocks partition the universe, progress, coherent preferences => the coherent ranking, "
+                     "for every schedule of every dataset of the grid. Code level: exhaustive depth-first re-execution "
+                     "over all pivot schedules; every logged (group, pivot) step is checked against the cheapest pairwise "
+                     "placement computed from the definitional cost table.",
+                ref="6 C11"),
+    "C15": dict(technique="histories enumerated by TLC from Session.tla (all sequences of <=3 calls over 16 call kinds) "
+                          "replayed on shared objects; abstract + deep snapshots and results validated by TLC (Trace_Session)",
+                text="Every history is replayed on one shared Dataset/ScoringScheme and on fresh copies; after each call "
+                     "the abstract state, the private fields and the identities of the containers must be unchanged, "
+                     "deterministic results must equal the fresh-copy results and earlier identical calls.",
+                ref="6 C15"),
+    "C16": dict(technique="Dataset life cycle as a TLA+ state machine (MC_DatasetSM); every transition, all length-2 paths "
+                          "of a sub-grid and random 6-10 step paths replayed on one live object; every accessor validated "
+                          "against the reported buckets by TLC (Trace_Dataset)",
+                text="After every construction/mutation TLC recomputes positions, domains, sizes, universe, both id maps, "
+                     "types, flags and both matrices from the buckets the object reports and compares them with the "
+                     "accessors; same for unified rankings/dataset and projections (with their stated semantics).",
+                ref="6 C16"),
+    "C17": dict(technique=TRACE + "; equality = equality of bags of rankings (RankBase!Bag); concrete insertion orders are "
+                                  "part of the generated cases",
+                text="Pairs built with explicit bucket insertion orders under hash-colliding names: equal datasets in other "
+                     "concrete representations, every near miss, unrelated datasets; reflexivity, symmetry, != and "
+                     "consistency with ranking equality.",
+                ref="6 C17"),
+    "C18": dict(technique="texts rendered by the TLA+ format specification (TextFormat!Render, injectivity model-checked) "
+                          "parsed by the library; all strings over the alphabet enumerated by TLC for totality; file round "
+                          "trip decided by TLC on bags of rankings",
+                text="Every partial ranking x 108 textual variants x 4 naming kinds must parse to an equal ranking; every "
+                     "string of length <= 5 (thorough 6) must parse or raise ValueError (2 s watchdog); every dataset of "
+                     "the grid written and read back must be the same bag of rankings.",
+                ref="6 C18"),
+    "C19": dict(technique=TRACE + "; Scheme!Valid / Proportional / Nickname / Scale evaluated by TLC (Trace_Scheme)",
+                text="All 3^12 twelve-tuples over {0,1,2} for validation, malformed shapes/types with the exact exception "
+                     "class, scaling by dyadic factors with the original untouched and score homogeneity through the real "
+                     "score, all pairs of a closed scheme sample for both equivalence variants and the nickname.",
+                ref="6 C19"),
+    "C20": dict(technique="generator moves as a TLA+ state machine (MarkovGen, dense-numbering invariant model-checked up to "
+                          "n=8); every transition of the model graph replayed on the real step functions; real walks "
+                          "validated step by step (Trace_Markov)",
+                text="Spec -> code: every (reachable vector, element, draw) for n <= 5 (thorough 6) executed on the real "
+                     "dispatcher. Code -> spec: every intermediate vector of real generator runs must be dense and each "
+                     "step a model step. Outputs of the four public generators over the (n, m, steps, complete) grid.",
+                ref="6 C20"),
 }
 
 NOT_YET = "check not built yet in this session (planned in DESIGN.md section 6); not claimed until it runs"
